@@ -452,7 +452,7 @@ func main() {
 	}
 	targets := []target{
 		{"models/index.go", "models", map[string]bool{"*.Validate": true, "convertToVector": true, "IndexSchema.CheckCompatibleMap": true}},
-		{"models/quantizer.go", "models", map[string]bool{"*.Validate": true}},
+		{"models/quantizer.go", "models", map[string]bool{"*.Validate": true, "Quantizer.ValidateFor": true}},
 		{"models/search.go", "models", map[string]bool{"*.Validate": true, "Query.ValidateSchema": true}},
 		{"models/point.go", "models", map[string]bool{"PointAsMap.ExtractIdField": true}},
 		{"httpapi/v2/handlers.go", "v2", map[string]bool{"*.Validate": true, "SemaDBHandlers.*": true}},
@@ -523,7 +523,7 @@ func main() {
 		}
 	}
 	for _, must := range []string{"models.IndexSchema.CheckCompatibleMap", "models.Query.ValidateSchema", "models.Query.Validate", "models.SearchRequest.Validate",
-		"models.IndexVectorVamanaParameters.Validate", "models.IndexVectorFlatParameters.Validate", "models.PointAsMap.ExtractIdField", "models.convertToVector",
+		"models.IndexVectorVamanaParameters.Validate", "models.IndexVectorFlatParameters.Validate", "models.PointAsMap.ExtractIdField", "models.convertToVector", "models.Quantizer.ValidateFor",
 		"v2.SemaDBHandlers.HandleInsertPoints", "v2.SemaDBHandlers.HandleSearchPoints", "v2.SemaDBHandlers.CollectionURIMiddleware",
 		"v1.SemaDBHandlers.HandleInsertPoints", "v1.SemaDBHandlers.CollectionURIMiddleware", "utils.DecodeValid", "middleware.AppHeaderMiddleware",
 		"cluster.ClusterNode.InsertPoints", "cluster.ClusterNode.RPCCreateCollection"} {
